@@ -170,9 +170,7 @@ func decodeOnce(doc interface{}, raw string) J {
 		}
 		res["res"] = "ok"
 	}()
-	select {
-	case <-done:
-	case <-time.After(5 * time.Second):
+	if !waitDone(done, 5*time.Second) {
 		return J{"res": "hang"}
 	}
 	return res
